@@ -56,6 +56,25 @@ ScopeOf(fr, e) ==
   ELSE IF \E r \in rs : Matches(fr, r.q, r.name) = {} THEN "none"
   ELSE "ok"
 
+\* Static typing.  The resolver checks the operands of && || ! against
+\* bool; which non-boolean operands it refuses is not documented, so an
+\* expression that feeds something not syntactically boolean into a logical
+\* operator is outside the fragment this specification gives a meaning to.
+Boolish(e) ==
+  \/ e.t = "bin" /\ e.op \in {"==", "!=", "<", "<=", ">", ">=", "~=", "&&", "||"}
+  \/ e.t = "un" /\ e.op = "!"
+  \/ e.t = "lit" /\ e.v.k \in {"bool", "null"}
+  \/ e.t = "in"
+RECURSIVE TypeRisk(_)
+TypeRisk(e) ==
+  CASE e.t = "bin"  -> \/ (e.op \in {"&&", "||"} /\ (~Boolish(e.l) \/ ~Boolish(e.r)))
+                       \/ TypeRisk(e.l) \/ TypeRisk(e.r)
+    [] e.t = "un"   -> (e.op = "!" /\ ~Boolish(e.e)) \/ TypeRisk(e.e)
+    [] e.t = "case" -> \E i \in Idx(e.arms) : TypeRisk(e.arms[i].c) \/ TypeRisk(e.arms[i].v)
+    [] e.t = "agg"  -> TypeRisk(e.e)
+    [] e.t = "in"   -> TypeRisk(e.e) \/ TypeRisk(e.lo) \/ TypeRisk(e.hi)
+    [] OTHER        -> FALSE
+
 RECURSIVE HasAgg(_)
 HasAgg(e) ==
   CASE e.t = "agg"  -> TRUE
@@ -273,7 +292,7 @@ CtxOf(st, w, i) ==
     osort |-> st.osort /\ st.dirs = <<>> ]
 
 ExprsScope(fr, es) ==
-  IF \E i \in Idx(es) : ScopeOf(fr, es[i]) = "keyclash" THEN "keyclash"
+  IF \E i \in Idx(es) : ScopeOf(fr, es[i]) = "keyclash" \/ TypeRisk(es[i]) THEN "keyclash"
   ELSE IF \E i \in Idx(es) : ScopeOf(fr, es[i]) = "ambiguous" THEN "ambiguous"
   ELSE IF \E i \in Idx(es) : ScopeOf(fr, es[i]) = "none" THEN "none" ELSE "ok"
 
@@ -336,7 +355,7 @@ Derive(st, s) ==
                  [i \in Idx(w.rows) |-> [v |-> w.rows[i].v \o vals[i], key |-> w.rows[i].key]]] }) ]
 
 Filter(st, s) ==
-  IF ScopeOf(st.frame, s.e) # "ok" THEN Bad(st, ScopeOf(st.frame, s.e))
+  IF ExprsScope(st.frame, << s.e >>) # "ok" THEN Bad(st, ExprsScope(st.frame, << s.e >>))
   ELSE
   LET pv(w) == [i \in Idx(w.rows) |-> Eval(s.e, st.frame, w.rows[i].v, CtxOf(st, w, i))]
       undef == \E d \in Idx(st.W) : \E w \in st.W[d] : \E i \in Idx(w.rows) : IsUndef(pv(w)[i])
